@@ -107,3 +107,18 @@ func init() {
 			"at, table = Nil, make(map[string]Entry)\n", "", "C17-S1", "uses a result of getSnapshot"},
 	)
 }
+
+func init() {
+	addMutants(
+		Mutant{"C02", "c02-negzero-unguarded", "zson/formatter.go", "formatPrimitive",
+			"f := zed.DecodeFloat64(bytes)\n\t\tif f == 0 && math.Signbit(float64(f)) {", "f := zed.DecodeFloat64(bytes)\n\t\tif f == 0 && math.Signbit(float64(f)) && len(bytes) == 0 {", "C02-N1", "", },
+		Mutant{"C17", "c17-snapshot-entry-after-marker", "lake/journal/store.go", "Store.putSnapshot",
+			"return zw.Write(zed.NewUint64(uint64(at)))", "if err := zw.Write(zed.NewUint64(uint64(at))); err != nil {\n\t\treturn err\n\t}\n\treturn zw.Write(zed.NewUint64(0))", "C17-S2", "putSnapshot writes the end marker"},
+		Mutant{"C17", "c17-snapshot-accepted-without-marker", "lake/journal/store.go", "Store.getSnapshot",
+			"if !complete {\n\t\treturn Nil, nil, errors.New(\"incomplete journal snapshot\")\n\t}\n", "", "C17-S2", "getSnapshot requires the end marker"},
+		Mutant{"C09", "c09-vectorize-filtered-scan", "compiler/optimizer/vam.go", "Optimizer.isScanWithVectors",
+			"if scan.Filter != nil {", "if scan.Filter != nil && scan.KeyPruner != nil {", "C09-G3", "declines filtered scans"},
+		Mutant{"C09", "c09-sum-no-const", "runtime/vam/op/agg.go", "Sum.update",
+			"\tcase *vector.Const:\n\t\t// Every non-null slot holds the same value.\n\t\tvar n int64\n\t\tfor slot := uint32(0); slot < vec.Len(); slot++ {\n\t\t\tif !vec.Nulls.Value(slot) {\n\t\t\t\tn++\n\t\t\t}\n\t\t}\n\t\tswitch id := vec.Type().ID(); {\n\t\tcase zed.IsSigned(id):\n\t\t\tc.sum += vec.Value().Int() * n\n\t\tcase zed.IsUnsigned(id):\n\t\t\tc.sum += int64(vec.Value().Uint()) * n\n\t\t}\n", "", "C09-X2", "lacks Const"},
+	)
+}
